@@ -72,10 +72,12 @@ PROPS["C19"] = {
     "harnesses": [
         {"name": "c19_seq", "params": {"quick": {"writes": 3}, "thorough": {"writes": 5}}, "covers": ["newer.stale-write-seen", "newer.incoming-write-lost"]},
         {"name": "c19_race2", "covers": ["newer.race-a-last", "newer.race-b-last"]},
+        {"name": "c19_replicas_2nodes", "fn": "c19_replicas", "params": {"quick": {"secondaries": 1, "writes": 2, "orders": 1}, "thorough": {"secondaries": 1, "writes": 3, "orders": 1}}, "covers": ["replicas.stale-version"]},
+        {"name": "c19_replicas_3nodes", "fn": "c19_replicas", "params": {"quick": {"secondaries": 2, "writes": 2, "orders": 0}, "thorough": {"secondaries": 2, "writes": 2, "orders": 1}}, "covers": ["replicas.stale-version"], "budget_s": {"quick": 900, "thorough": 7200}},
     ],
-    "bounds": {"quick": "3 consecutive writes (plain or versioned with any version in [0,1000)) to one key of a newer-strategy database with op ids from a symbolic non-decreasing clock (ties allowed); 2 concurrent set-safe writers (any versions in [-1, cur+1]) under all lock-level interleavings",
-               "thorough": "5 writes"},
-    "outside": "replication of the same writes to secondaries (see C04); more than 2 concurrent writers",
+    "bounds": {"quick": "3 consecutive writes (plain or versioned with any version in [0,1000)) to one key of a newer-strategy database with op ids from a symbolic non-decreasing clock (ties allowed); 2 concurrent set-safe writers (any versions in [-1, cur+1]) under all lock-level interleavings; replicas: 2 consecutive writes (plain or versioned with any version in [0, cur+1]) issued on the primary of a 2-node cluster (all FIFO delivery orders) and of a 3-node cluster (one fair order), each replicated before the next, every replica compared with the primary",
+               "thorough": "5 writes; 3 replicated writes; 3 nodes under all delivery orders"},
+    "outside": "writes issued on a secondary (C04 records the double application there); more than 2 concurrent writers; concurrent clients in a cluster",
     "assumptions": ["environment shims", "partial-order reduction: session locks, the database table and the metrics averages are not yield points (checked for contention)"],
 }
 PROPS["C20"] = {
@@ -182,9 +184,9 @@ PROPS["C14"] = {
 PROPS["C13"] = {
     "level": "model_checking",
     "harnesses": [
-        {"name": "c13_events", "params": {"quick": {"events": 5}, "thorough": {"events": 6}}, "covers": ["conflict.queued", "resolve.done"], "budget_s": {"quick": 900, "thorough": 7200}},
+        {"name": "c13_events", "params": {"quick": {"events": 5}, "thorough": {"events": 6}}, "covers": ["conflict.queued", "resolve.done", "resolve.out-of-order"], "budget_s": {"quick": 900, "thorough": 7200}},
     ],
-    "bounds": {"quick": "single node, arbiter-strategy database, one key with history (version 1); all sequences of 5 events from {an arbiter registers, the arbiter disconnects, plain set, set-safe with any base version in [0,3], the arbiter resolves the oldest pending conflict echoing the op id and version of its notice}; after every event: refused-or-queued writes leave the value untouched, a queued conflict is recorded under $conflicts_<key>_<opid> and delivered (or re-delivered to the next arbiter, exactly the unresolved ones, in order), nothing is applied over a pending conflict; at the end the key holds the last resolution and is writable again",
+    "bounds": {"quick": "single node, arbiter-strategy database, one key with history (version 1); all sequences of 5 events from {an arbiter registers, the arbiter disconnects, plain set, set-safe with any base version in [0,3], the arbiter resolves the oldest pending conflict echoing the op id and version of its notice, the arbiter resolves the newest pending conflict first (out of queue order)}; after every event: refused-or-queued writes leave the value untouched, a queued conflict is recorded under $conflicts_<key>_<opid> and delivered (or re-delivered to the next arbiter, exactly the unresolved ones, in order), nothing is applied over a pending conflict; at the end the key holds the last resolution and is writable again",
                "thorough": "6 events"},
     "outside": "two keys; clusters (the resolve path of a cluster is covered by C14 / C04: it does not quiesce, recorded there); resolutions that pick the old value",
     "assumptions": ["environment shims", "op ids come from the logical clock (distinct)"],
